@@ -22,6 +22,8 @@ def main():
         ok, text = common.run_replay(args[i + 1])
         print(text)
         return 1 if ok else 0
+    if args:
+        os.environ["VERIF_PARTIAL_RUN"] = "1"       # name filters: a development run, its evidence must not replace the full one
     mod = importlib.import_module("checks." + pid.lower())
     return mod.main(args)
 
